@@ -672,6 +672,22 @@ fn shrink_candidates(w: &Workload) -> Vec<Workload> {
             }
         }
     }
+    // shorter strings: drop the k-th character of every pool entry at once (keeps same-length /
+    // same-prefix collisions between entries intact)
+    let maxlen = w.pool.iter().map(|p| p.chars().count()).max().unwrap_or(0);
+    if maxlen > 1 && maxlen <= 40 {
+        for k in (0..maxlen).rev() {
+            let mut n = w.clone();
+            for p in &mut n.pool {
+                if p.chars().count() > 1 {
+                    *p = p.chars().enumerate().filter(|(i, _)| *i != k).map(|(_, c)| c).collect();
+                }
+            }
+            if n.pool != w.pool {
+                out.push(n);
+            }
+        }
+    }
     // shorter strings: drop one character of a pool entry
     for p in 0..w.pool.len() {
         let chars: Vec<char> = w.pool[p].chars().collect();
